@@ -109,6 +109,7 @@ func wrapG(g geom.Geometry, err error) (geom.Geometry, bool, error) { return g, 
 
 func feed(k *run.K, format string, in []byte) {
 	k.Mark(format + " " + clipHex(in))
+	k.Context = format + " input " + clipIn(in, format)
 	k.Count("inputs", 1)
 	k.Count("inputs_"+format, 1)
 	switch format {
